@@ -386,3 +386,66 @@ Proof.
   - apply stream_evo; assumption.
   - apply job_evo; assumption.
 Qed.
+
+(* ---- Publish ---- *)
+Definition pubprov (SS : list sub) (MM : list msg) (d : del) : Prop :=
+  exists s m, In s SS /\ s_id s = d_sub d /\ sub_live s = true /\ In m MM /\ m_id m = d_msg d /\
+    filter_accepts (s_filter s) (m_attrs m) = true /\ d_attempts d = 0 /\ d_completed d = None /\
+    m_topic m = s_topic s.
+
+Lemma pubprov_mono SS MM MM' d : incl MM MM' -> pubprov SS MM d -> pubprov SS MM' d.
+Proof.
+  intros Hi (s & m & H1 & H2 & H3 & H4 & H5). exists s, m.
+  split; [exact H1|]. split; [exact H2|]. split; [exact H3|]. split; [apply Hi; exact H4|exact H5].
+Qed.
+
+Lemma publish_one_prov st t p fr st' fr' w :
+  publish_one st t p fr = (st', fr', w, []) ->
+  subs st' = subs st /\ incl (msgs st) (msgs st') /\
+  forall d, In d (dels st') -> In d (dels st) \/ pubprov (subs st) (msgs st') d.
+Proof.
+  unfold publish_one.
+  match goal with |- context [deliver_to_subs ?a ?b ?c ?d ?e] =>
+    destruct (deliver_to_subs a b c d e) as [[[st2 fr2] w2] n2] eqn:E;
+    set (m := c) in *; set (st1 := a) in * end.
+  intros H. inversion H as [[H1 H2 H3 H4]]. clear H. subst st2 fr2 w2.
+  apply app_eq_nil in H4. destruct H4 as [_ ->].
+  eapply (deliver_to_subs_linv (subs st) (msgs st1) (dels st) (fun _ => False)
+            (pubprov (subs st) (msgs st1))) in E; [| | |reflexivity].
+  - destruct E as (Hs & Hm & (Hev & _ & _)).
+    split; [exact Hs|]. split.
+    + rewrite Hm. unfold st1. cbn [set_msgs msgs]. intros x Hx. apply in_ins. right; exact Hx.
+    + intros d Hd. rewrite Hm. destruct (Hev d Hd) as [H|[(c & _ & _ & _ & _ & [])|[_ H]]].
+      * left; exact H.
+      * right; exact H.
+  - split; [reflexivity|]. split; [reflexivity|]. apply evo_refl.
+  - intros s d Hs Hdm Hds Hda Hdc Hf.
+    unfold live_subs_of in Hs. apply filter_In in Hs. destruct Hs as [Hsin Hsp].
+    apply andb_true_iff in Hsp. destruct Hsp as [Hlive Htop]. apply N.eqb_eq in Htop.
+    exists s, m. split; [exact Hsin|]. split; [symmetry; exact Hds|]. split; [exact Hlive|].
+    split; [unfold st1; cbn [set_msgs msgs]; apply in_ins; left; reflexivity|].
+    split; [symmetry; exact Hdm|]. split; [exact Hf|]. split; [exact Hda|]. split; [exact Hdc|].
+    symmetry; exact Htop.
+Qed.
+
+Lemma publish_all_prov t ps : forall st fr st' fr' w n,
+  publish_all st t ps fr = Some (st', fr', w, n) -> n = [] ->
+  subs st' = subs st /\ incl (msgs st) (msgs st') /\
+  forall d, In d (dels st') -> In d (dels st) \/ pubprov (subs st) (msgs st') d.
+Proof.
+  induction ps as [|p r IH]; intros st fr st' fr' w n; cbn [publish_all].
+  - intros H _; inversion H; subst. split; [reflexivity|]. split; [apply incl_refl|].
+    intros d Hd; left; exact Hd.
+  - destruct (negb (pm_valid p)); [discriminate|].
+    destruct (publish_one st t p fr) as [[[sa fa] wa] na] eqn:Ea.
+    destruct (publish_all sa t r fa) as [[[[sb fb] wb] nb]|] eqn:Eb; [|discriminate].
+    intros H Hn; subst n; inversion H; subst. clear H.
+    match goal with Hx : _ ++ _ = [] |- _ => apply app_eq_nil in Hx; destruct Hx as [-> ->] end.
+    apply publish_one_prov in Ea. destruct Ea as (Hs1 & Hm1 & Hd1).
+    destruct (IH _ _ _ _ _ _ Eb eq_refl) as (Hs2 & Hm2 & Hd2).
+    split; [congruence|]. split; [eapply incl_tran; eassumption|].
+    intros d Hd. destruct (Hd2 d Hd) as [H|H].
+    + destruct (Hd1 d H) as [H'|H']; [left; exact H'|right].
+      eapply pubprov_mono; [exact Hm2|exact H'].
+    + right. rewrite <- Hs1. exact H.
+Qed.
